@@ -7,7 +7,8 @@ statement that may write the partition array or start the algorithm proper,
 and writes it as one `list guard` per entry point into coq/Gen/GuardsGen.v
 (vocabulary and meaning: coq/Model/Errors.v).  docs/C20.md lists exactly what
 is recognised.  Anything with an early exit (`return`, `?`) that is not
-recognised raises Fail (fail closed)."""
+recognised raises Fail (fail closed); gen_guards contains a Fail per entry point
+(`[GUntranslated]` + a printed `error` line) so that the harness still runs."""
 import os, re, sys
 sys.path.insert(0, os.path.dirname(os.path.dirname(os.path.abspath(__file__))))
 import translate_lib
@@ -582,11 +583,23 @@ def gen_guards():
            "   write the partition or start the algorithm proper (vocabulary: Model/Errors.v). *)\n"
     out += "From Coupe Require Import Lib.Prelude Model.Errors.\n\n"
     for name, rel, hre in ENTRIES:
-        gs, consts = guards_of_entry(name, rel, hre)
+        try:
+            gs, consts = guards_of_entry(name, rel, hre)
+            if name.startswith("hilbert"):
+                mo = [g for g in gs if g.startswith("GInvalidOrder ")]
+                if len(mo) != 1:
+                    raise Fail("%s: expected exactly one order test" % name)
+        except Fail as e:
+            # Fail closed PER ENTRY POINT: the list [GUntranslated] satisfies no theorem, but the
+            # run module still builds, so the harness and the checker still look for a failing
+            # input.  The line printed here makes tools/check.py record a broken obligation.
+            print("GuardsGen.v error: %s: %s" % (name, e))
+            out += "(* translator error: %s *)\n" % str(e).replace("*)", "* )")
+            if name.startswith("hilbert"):
+                out += "Definition %s_max_order : N := 0.\n" % name
+            out += "Definition %s_guards : list guard := [ GUntranslated ].\n" % name
+            continue
         if name.startswith("hilbert"):
-            mo = [g for g in gs if g.startswith("GInvalidOrder ")]
-            if len(mo) != 1:
-                raise Fail("%s: expected exactly one order test" % name)
             out += "Definition %s_max_order : N := %s.\n" % (name, mo[0].split()[1])
             gs = [("GInvalidOrder %s_max_order" % name) if g.startswith("GInvalidOrder ") else g for g in gs]
         out += "Definition %s_guards : list guard :=\n  [ %s ].\n" % (name, ";\n    ".join(gs))
@@ -602,10 +615,49 @@ PROP = dict(
     prop_targets=["Properties/C20.vo"],
     cases=dict(quick=3300, thorough=33000),
     level="proof",
-    rule="TODO",
-    class_names={},
-    trusted_base=[],
-    assumptions=[],
+    rule="case idx calls entry point idx % 11 (Rcb, Rib, Greedy, KarmarkarKarp, CompleteKarmarkarKarp, VnBest, VnFirst, "
+         "FiducciaMattheyses, ArcSwap, HilbertCurve 2-D / 3-D) through coupe::Partition::partition; idx / 11 enumerates every "
+         "combination of {equal, shorter, longer, empty} for the partition array and each other input (16 or 64 combinations), "
+         "then well-formed slots that enumerate every position j < n <= 8 of an id above one (FM) / of a negative weight "
+         "(VnBest, i64 and f64), orders max+1, above max, huge, u32::MAX and valid (HilbertCurve), an id equal to usize::MAX "
+         "(VnBest, VnFirst, ArcSwap) and well-formed controls; arrays pre-filled with recognisable garbage; distinct = distinct "
+         "(entry point, array, weight signs, lengths, part_count, order); non-trivial = some clause of the property applies "
+         "(a length differs, an id above one for FM, a negative weight for VnBest, an order above the maximum)",
+    class_names={0: "model: InputLenMismatch", 1: "model: BiPartitioningOnly", 2: "model: NegativeValues",
+                 3: "model: InvalidOrder", 4: "model: early Ok, array untouched", 5: "model: early Ok, array zero-filled",
+                 6: "model: guards passed; implementation returned", 7: "model: guards passed; implementation panicked/hung (outside C20)",
+                 8: "model: `1 + max(ids)` overflows (debug build panic; id = usize::MAX, outside the contract)", 9: "model: NotFound"},
+    trusted_base=[
+        "axioms: none (every theorem of Properties/C20.v is closed under the global context)",
+        "the C20 translator plugin (tools/props_d/C20.py): statement splitter + pattern recognition of the guard statements listed in "
+        "docs/C20.md; statements that do not mention the partition array and have no early exit are taken to be pure bookkeeping "
+        "(they cannot write the array; that they do not panic is observed by the harness only)",
+        "`OrientedBoundingBox::from_points(points)` is None exactly when `points` is empty (checked textually in src/geometry.rs by the "
+        "translator; the numerical code in between is not modelled)",
+        "debug-build semantics of `1 + max(part_ids)` (overflow check on); the release profile wraps instead and is not run",
+    ],
+    assumptions=[
+        "the partition array passed to VnBest / VnFirst holds no id equal to usize::MAX (otherwise `1 + max` overflows before any check)",
+        "adjacency matrices are square (sprs CsMat n x n; Topology::len debug-asserts it)",
+        "weights are not NaN (a NaN is neither negative nor zero for the guards)",
+        "when a call violates several clauses at once, any of the promised errors satisfies the run-time checker (the theorems say "
+        "which one the current guard order yields: the length mismatch)",
+    ],
 )
 
-MANIFEST = dict(text="TODO", design_ref="DESIGN.md §7 C20", note="TODO", technique="TODO")
+MANIFEST = dict(
+    text="For each of the eleven entry points the translator extracts, on every run, the sequence of guard statements in source order "
+         "up to the first statement that can write the partition or start the algorithm (coq/Gen/GuardsGen.v). Theorems about "
+         "these GENERATED lists, for ALL input shapes and arrays: a length mismatch of any input (shorter, longer, empty) yields "
+         "InputLenMismatch for Rcb, Rib, Greedy, KarmarkarKarp, CompleteKarmarkarKarp, VnBest, VnFirst, FiducciaMattheyses, ArcSwap; "
+         "FM yields BiPartitioningOnly for an id above one; VnBest yields NegativeValues for a negative weight at any position; "
+         "HilbertCurve yields InvalidOrder above 32 (2-D) / 21 (3-D); in every error case the array is untouched and nothing panics. "
+         "The interpretation of the lists is compared with the real entry points on a malformed stream, and an independent checker "
+         "judges every implementation result.",
+    design_ref="DESIGN.md §7 C20",
+    note="Trusted: Coq kernel; the guard-list translator (fails closed on unrecognised early exits); statements not mentioning the "
+         "partition are assumed not to write it; differential runs (3.3k/33k calls, public API, catch_unwind + watchdog). "
+         "VnBest/VnFirst theorems assume no id equals usize::MAX. No axioms.",
+    technique="Coq proof (reflective static analysis of guard lists, proved sound for the guard interpreter) + source-order translator "
+              "+ model/implementation correspondence + checker",
+)
